@@ -147,6 +147,10 @@ func confirm(nb *nativeBuild, inst Instance, v interp.Violation) (bool, string) 
 			if r.exit == 2 && (strings.Contains(r.out, "panic:") || strings.Contains(r.out, "fatal error:")) {
 				return true, r.out
 			}
+		case "hang":
+			if r.timedOut {
+				return true, r.out
+			}
 		case "deadlock":
 			if r.timedOut || strings.Contains(r.out, "all goroutines are asleep") {
 				return true, r.out
@@ -226,8 +230,11 @@ func conclude(prop, tier string, seed int64, fam *Family, results []instResult, 
 			if v.Kind == "race" || v.Kind == "torn-read" || v.Kind == "stale-read" {
 				key = v.Key
 			}
-			if v.Kind == "crash" || v.Kind == "deadlock" {
+			if v.Kind == "crash" || v.Kind == "deadlock" || v.Kind == "hang" {
 				key = v.Kind + "|" + r.inst.Stratum
+			}
+			if *flagNoGroup {
+				key += "|" + r.inst.Func
 			}
 			g, ok := groups[key]
 			if !ok {
